@@ -13,7 +13,7 @@ import (
 func init() {
 	register(&propDef{
 		ID:          "C15",
-		Explanation: "Table agreement writer <-> reader <-> spec for the value codec, decided from the source on every run: for every data type the element decoder supports, what the encoder writes on the paths on which the element has that data type (extracted by path enumeration over the SSA form: primitive, width, byte order, conversion chain, getter) and what the decoder hands to the constructor on those paths (primitive, width, byte order, conversion chain, constructor) are each compared with a reference table transcribed from RFC 7011 section 6.1 (unsigned/signed big-endian of 1/2/4/8 bytes, IEEE-754 bits big-endian, boolean 1=true/2=false, raw 6/4/16 bytes, length-prefixed strings/octets) - comparing each side with the spec, not with each other, also catches symmetric mistakes; width = InfoElementLength[type] = Len of EVERY registry literal of that type; the getter used by the encoder is declared by the concrete element type the decoder constructs; unsupported labels return an error on both sides and the label sets agree; the variable-length prefix scheme (threshold 255, +1 / 0xFF + 2 bytes = +3, max 65535) is read off the (length interval -> bytes written / overhead / outcome) table of its five sites (two GetLength methods, two encoder branches, the collector's prefix reader), whichever way the decision is spelled and each must equal RFC 7011 section 7; length accounting: baseInfoElement.GetLength returns element.Len, the fixed-length octet-array branch returns Len, the encoder's entry guard, the record buffer sizing and the index advance all use the same GetLength(), and both data-record constructors accumulate exactly GetLength() per element. Not decided: per-value equality (exhaustive enumeration is a dynamic notion); NaN payloads are preserved because Float*bits/Float*frombits are used, not observed. Later additions: the record loop of the data decoder has no early successful exit; setters of slice-valued elements replace the slice; the reader consumes per field what the writer produced (C01's field-bytes rule); InfoElements are immutable after construction; the whole element list is serialized into a buffer of d.len bytes. Round-five additions: the cached record buffer is reused only when its length equals the accounted length.",
+		Explanation: "Table agreement writer <-> reader <-> spec for the value codec, decided from the source on every run: for every data type the element decoder supports, what the encoder writes on the paths on which the element has that data type (extracted by path enumeration over the SSA form: primitive, width, byte order, conversion chain, getter) and what the decoder hands to the constructor on those paths (primitive, width, byte order, conversion chain, constructor) are each compared with a reference table transcribed from RFC 7011 section 6.1 (unsigned/signed big-endian of 1/2/4/8 bytes, IEEE-754 bits big-endian, boolean 1=true/2=false, raw 6/4/16 bytes, length-prefixed strings/octets) - comparing each side with the spec, not with each other, also catches symmetric mistakes; width = InfoElementLength[type] = Len of EVERY registry literal of that type; the getter used by the encoder is declared by the concrete element type the decoder constructs; unsupported labels return an error on both sides and the label sets agree; the variable-length prefix scheme (threshold 255, +1 / 0xFF + 2 bytes = +3, max 65535) is read off the (length interval -> bytes written / overhead / outcome) table of its five sites (two GetLength methods, two encoder branches, the collector's prefix reader), whichever way the decision is spelled and each must equal RFC 7011 section 7; length accounting: baseInfoElement.GetLength returns element.Len, the fixed-length octet-array branch returns Len, the encoder's entry guard, the record buffer sizing and the index advance all use the same GetLength(), and both data-record constructors accumulate exactly GetLength() per element. Not decided: per-value equality (exhaustive enumeration is a dynamic notion); NaN payloads are preserved because Float*bits/Float*frombits are used, not observed. Later additions: the record loop of the data decoder has no early successful exit; setters of slice-valued elements replace the slice; the reader consumes per field what the writer produced (C01's field-bytes rule); InfoElements are immutable after construction; the whole element list is serialized into a buffer of d.len bytes. Round-five additions: the cached record buffer is reused only when its length equals the accounted length. Round-six additions: the decoder makes one element slice per record.",
 		Assume:      []string{"encoding/binary and math.Float*bits semantics", "the reference table is a faithful transcription of RFC 7011 sections 6.1 and 7"},
 		Run:         runC15,
 	})
@@ -578,6 +578,8 @@ func lengthAccounting(p *Prog, r *Report, rule string) {
 }
 
 func runC15(p *Prog, r *Report, tier string) {
+	// AddRecordV2 adopts the element slice it is given: the decoder makes one slice per record
+	checkFreshPerIteration(p, r, "R-OWNER.elements-fresh", "(*pkg/collector.CollectingProcess).decodeDataSet", func(n string) bool { return strings.HasSuffix(n, ".AddRecordV2") }, 1, "element slice")
 	tb := codecAgreement(p, r, "R-CODEC", "enc+dec")
 	registryLengths(p, r, "R-CODEC.registry", tb)
 	prefixSites(p, r, "R-CODEC.prefix")
